@@ -294,7 +294,7 @@ def clauses(tier, seed):
   fsw = [SW + 'ShallowWaterEquations.explicit_terms', SW + 'ShallowWaterEquations.implicit_terms', 'dinosaur.shallow_water_states.one_layer',
          'dinosaur.shallow_water_states.multi_layer', 'dinosaur.primitive_equations_states.isothermal_rest_atmosphere']
   from contracts import column_contracts, vertical_matrix_contracts, wind_contracts
-  deductive = column_contracts.clauses()['C05'] + column_contracts.clauses()['C05sw'] + wind_contracts.sw_clauses() + vertical_matrix_contracts.clauses(only=('get_sigma_ratios', 'get_geopotential', 'canary'))
+  deductive = column_contracts.clauses()['C05'] + column_contracts.clauses()['C05sw'] + wind_contracts.sw_clauses() + wind_contracts.pe_clauses() + vertical_matrix_contracts.clauses(only=('get_sigma_ratios', 'get_geopotential', 'canary'))
   for c in deductive:
     if c.replay is None:
       c.replay = rerun_replay(run_generic_dry)
@@ -314,7 +314,7 @@ MANIFEST = {
     'engine': 'pyvc+rtc',
     'technique': ('contract-based deductive for the vertical discretisation: sigma_dot (explicit / full), the omega/p term (Durran 8.124), the log-pressure tendency, the sigma ratios and '
                   'the geopotential matrix (dense and cumulative-sum forms) proved equal to the documented finite differences for every number of layers from the real source; the shallow-water explicit '
-                  'tendencies proved equal to the vorticity-divergence form of the layered equations as an operator expression and the inter-layer coupling to its hydrostatic value (pyvc column / '
+                  'and the primitive-equation explicit tendencies (given the diagnostic state) proved equal to their documented operator expressions, the shallow-water ones to the vorticity-divergence form of the layered equations and the inter-layer coupling to its hydrostatic value (pyvc column / '
                   'matrix mode); for the whole tendency, bounded run-time contracts: post-conditions of explicit_terms + implicit_terms against an independent pointwise specification of the '
                   'continuous equations (analytic horizontal derivatives, documented vertical differences) and against analytically balanced state families; '
                   'the relation of the horizontal part to the continuous equations stays bounded (floats vs a PDE)'),
